@@ -6,6 +6,7 @@
 mod conc;
 mod cuf;
 mod session;
+mod syntax;
 mod table;
 mod uf;
 mod util;
@@ -23,6 +24,7 @@ fn main() {
         "table" => table::main(rest),
         "conc" => conc::main(rest),
         "cuf" => cuf::main(rest),
+        "syntax" => syntax::main(rest),
         other => Err(format!("unknown driver {other}")),
     };
     if let Err(e) = r {
